@@ -2,6 +2,7 @@ package main
 
 import (
 	"fmt"
+	"runtime"
 	"strings"
 	"time"
 
@@ -46,7 +47,7 @@ func slotWorkloads(c *chk.Ctx, label string, n int) []*slotJob {
 	var jobs []*slotJob
 	for i := 0; i < n; i++ {
 		max := []int{1, 2, 3, 4, 6, 8}[rng.Intn(6)]
-		o := gen.ContentionOpts{Max: max, Procs: 2 + rng.Intn(3), TasksPer: 0, SleepLo: 15, SleepHi: 60, GoFunc: true, Skipped: rng.Intn(2) == 0, Streaming: max >= 2 && rng.Intn(4) == 0}
+		o := gen.ContentionOpts{Max: max, Procs: 2 + rng.Intn(3), TasksPer: 0, SleepLo: 15, SleepHi: 60, GoFunc: true, Skipped: rng.Intn(2) == 0, Streaming: max >= 2 && rng.Intn(4) == 0, Prepend: true}
 		if o.Streaming {
 			// a multi-core task holding a partial acquisition beside a producer that waits
 			// for its consumer can block by design; streaming is combined with 1-core tasks only
@@ -66,7 +67,7 @@ func slotWorkloads(c *chk.Ctx, label string, n int) []*slotJob {
 func c06(args []string) {
 	c := chk.New("C06", "exploration", args)
 	c.Build(false)
-	c.Rule("contention workloads: maxConcurrentTasks in {1,2,3,4,6,8}, 2-4 processes with CoresPerTask drawn from 1..max, about 3*max simultaneously ready tasks of 15-60 ms (commands and Go functions), skipped tasks mixed in, an optional streaming producer/consumer pair, one long-wait scenario (tasks waiting > 5 s for a slot); oracles = (1) sweep line over the commands' own CLOCK_MONOTONIC start/end stamps weighted by CoresPerTask, (2) shadow slot counter updated under the hook mutex at acquisition/release, (3) porcupine linearizability of the Acquire(k)/Release(k) history against a sequential counting semaphore. distinct_nontrivial = runs whose observed weighted overlap reached max (real contention), distinct by (max, cores mix, interleaving signature)")
+	c.Rule("contention workloads: maxConcurrentTasks in {1,2,3,4,6,8} (and NumCPU+4.. with a process that needs all slots and one that needs NumCPU+1), 2-4 processes with CoresPerTask drawn from 1..max, half of the command processes wrapped through Prepend, about 3*max simultaneously ready tasks of 15-60 ms (commands and Go functions), skipped tasks mixed in, an optional streaming producer/consumer pair, one long-wait scenario (tasks waiting > 5 s for a slot); oracles = (1) sweep line over the commands' own CLOCK_MONOTONIC start/end stamps weighted by CoresPerTask, (2) shadow slot counter updated under the hook mutex at acquisition/release, (3) porcupine linearizability of the Acquire(k)/Release(k) history against a sequential counting semaphore. distinct_nontrivial = runs whose observed weighted overlap reached max (real contention), distinct by (max, cores mix, interleaving signature)")
 	c.Assume("a command's [start,end] interval lies inside its task's slot-holding interval, so the weighted overlap is a lower bound of slot usage (sound)", "CoresPerTask <= maxConcurrentTasks")
 	jobs := slotWorkloads(c, "c06", c.Pick(48, 500))
 	// long-wait scenario: three tasks of ~5.6 s on 2 slots, so that one task waits > 5 s for its slot
@@ -74,6 +75,15 @@ func c06(args []string) {
 		rng := c.Rand("c06-long")
 		s, bh := gen.Contention(rng, "longwait", gen.ContentionOpts{Max: 2, Procs: 3, TasksPer: 1, SleepLo: 5600, SleepHi: 5600, CoresFn: func(int) int { return 1 }})
 		jobs = append(jobs, &slotJob{s, bh, Cfg{Buf: 128, Procs: 4}, "longwait"})
+	}
+	// more slots and more cores per task than the machine has CPUs: slots are bookkeeping, not CPUs
+	for r := 0; r < c.Pick(2, 6); r++ {
+		rng := c.Rand(fmt.Sprintf("c06-big%d", r))
+		ncpu := runtime.NumCPU()
+		max := ncpu + 4 + 2*r
+		s, bh := gen.Contention(rng, fmt.Sprintf("bigmax%d", r), gen.ContentionOpts{Max: max, Procs: 3, TasksPer: 3, SleepLo: 40, SleepHi: 80, GoFunc: r%2 == 1, Prepend: true,
+			CoresFn: func(i int) int { return []int{max, 1, ncpu + 1}[i%3] }})
+		jobs = append(jobs, &slotJob{s, bh, Cfg{Buf: 128, Procs: 4}, "more-slots-than-cpus"})
 	}
 	run.Parallel(len(jobs), func(i int) {
 		j := jobs[i]
